@@ -257,13 +257,16 @@ def in_child(h, limit):
         os.close(r)
         try:
             signal.signal(signal.SIGALRM, _alarm)
-            signal.alarm(limit)
+            signal.signal(signal.SIGPROF, _alarm)
+            signal.setitimer(signal.ITIMER_PROF, limit)      # CPU time; wall-clock backstop for a blocking call
+            signal.alarm(max(120, 20 * int(limit)))
             try:
                 res = run_history(h)
             except Hang:
                 res = ["hang"]
             except BaseException as e:      # noqa
                 res = ["driver-error", type(e).__name__, str(e)[:300]]
+            signal.setitimer(signal.ITIMER_PROF, 0)
             signal.alarm(0)
             with os.fdopen(w, "w") as f:
                 json.dump(res, f)
